@@ -176,8 +176,122 @@ def run(ctx):
         for kind, msg in out["problems"]:
             ctx.violation(out["name"], kind, msg, {k: out[k] for k in ("name", "codes", "X", "seed", "bs", "candidates_mode", "candidates")}, what=f"{out['name']}: {kind.replace('_', ' ')} ({msg})")
     classifiers_and_streams(ctx)
+    regression_sentinels(ctx)
     ctx.sample({"encodings": [e[0] for e in ENC]})
     ctx.extra["exhaustive"] = False
+
+
+def _set_ml(obj, ml):
+    """missing_label set consistently on a strategy / model and on what it wraps"""
+    try:
+        if "missing_label" in obj.get_params(deep=False):
+            obj.set_params(missing_label=ml)
+    except Exception:
+        pass
+    for attr in ("query_strategy", "estimator", "strategy"):
+        sub = getattr(obj, attr, None)
+        if sub is not None and hasattr(sub, "get_params"):
+            _set_ml(sub, ml)
+
+
+def regression_sentinels(ctx):
+    """Regression strategies and regressors: the sentinel that marks a missing TARGET (NaN, a reserved number, None) is irrelevant -
+    same indices, utilities and predictions; incl. wrapped estimators that cannot be fitted yet (fallback statistics)."""
+    from sklearn.linear_model import LinearRegression
+    from skactiveml.regressor import NICKernelRegressor, SklearnNormalRegressor, SklearnRegressor
+    from sklearn.linear_model import BayesianRidge
+    from .c15 import refusing
+    Needs3 = lambda: refusing(3)
+
+    def enc(y, ml):
+        if ml is None:
+            return np.array([None if v != v else v for v in y], dtype=object)
+        if isinstance(ml, float) and ml != ml:
+            return y.copy()
+        return np.where(np.isnan(y), ml, y)
+    sentinels = [("nan", float("nan")), ("-999.0", -999.0), ("-1", -1), ("None", None)]
+    rng = ctx.rng("c09reg")
+    entries = PL._entries()
+    for ei, E in enumerate(entries):
+        if E.task != "reg":
+            continue
+        for h in range((1 if E.slow else 3) if ctx.is_quick else (4 if E.slow else 20)):
+            X, y, _, classes, labeling = R.gen_data(rng, "reg", n=int(rng.integers(6, 11)), cold=["half", "few", "one_class"][h % 3])
+            y = np.where(np.isnan(y), np.nan, np.abs(y) + 0.5)          # targets are positive: -1 / -999 are free to serve as sentinels
+            seed = int(rng.integers(0, 1000))
+            bs = int(rng.integers(1, 3))
+            ref = None
+            for sname, ml in sentinels:
+                try:
+                    qs = E.make(classes, seed)
+                    _set_ml(qs, ml)
+                    kw = E.kw(classes, seed)
+                    for v in kw.values():
+                        for m in (v if isinstance(v, (list, tuple)) else [v]):
+                            if hasattr(m, "get_params"):
+                                _set_ml(m, ml)
+                    np.random.seed(0)
+                    with warnings.catch_warnings():
+                        warnings.simplefilter("ignore")
+                        idx, ut = qs.query(X=X.copy(), y=enc(y, ml), batch_size=bs, return_utilities=True, **kw)
+                    res = (np.asarray(idx).tolist(), np.asarray(ut, dtype=float))
+                except Exception as e:
+                    res = ("exception", err_class(e), repr(e)[:200])
+                if sname == "nan":
+                    ref = res
+                    if ref[0] == "exception":
+                        ctx.hist[f"regression_query_exception(not C09):{E.name}"] += 1
+                        break
+                    continue
+                ctx.count("regression:" + E.name)
+                rc = {"strategy": E.name, "X": X.tolist(), "y": [None if v != v else v for v in y], "sentinel": sname, "seed": seed, "batch_size": bs}
+                if res[0] == "exception":
+                    ctx.violation(E.name, "encoding_exception", f"missing_label={sname}: {res[2]}", rc,
+                                  what=f"{E.name}: query works with NaN as missing target but raises {res[1]} with missing_label={sname}")
+                elif res[0] != ref[0] or not np.allclose(res[1], ref[1], rtol=1e-9, atol=1e-12, equal_nan=True):
+                    ctx.violation(E.name, "encoding_dependent", f"missing_label={sname}: indices {res[0]} vs {ref[0]} (NaN)", rc,
+                                  what=f"{E.name}: indices / utilities depend on the sentinel that marks missing targets (NaN vs {sname})")
+            if ref is not None and ref[0] != "exception":
+                ctx.nontriv(("c09reg", E.name, X.tobytes(), y.tobytes(), seed))
+    # regressors directly
+    mks = [("SklearnRegressor[LinearRegression]", lambda ml, s: SklearnRegressor(LinearRegression(), missing_label=ml, random_state=s)),
+           ("SklearnRegressor[needs3]", lambda ml, s: SklearnRegressor(Needs3(), missing_label=ml, random_state=s)),
+           ("SklearnNormalRegressor[needs3]", lambda ml, s: SklearnNormalRegressor(Needs3(), missing_label=ml, random_state=s)),
+           ("SklearnNormalRegressor[BayesianRidge]", lambda ml, s: SklearnNormalRegressor(BayesianRidge(), missing_label=ml, random_state=s)),
+           ("NICKernelRegressor", lambda ml, s: NICKernelRegressor(missing_label=ml, random_state=s))]
+    for name, mk in mks:
+        for h in range(6 if ctx.is_quick else 40):
+            n = int(rng.integers(4, 9))
+            X = rng.normal(size=(n, 2))
+            y = np.abs(np.round(rng.normal(size=n), 1)) + 0.5
+            nlab = [0, 1, 2, 4][h % 4]
+            y[rng.permutation(n)[nlab:]] = np.nan
+            Xq = rng.normal(size=(3, 2))
+            seed = int(rng.integers(0, 100))
+            ref = None
+            for sname, ml in sentinels:
+                try:
+                    with warnings.catch_warnings():
+                        warnings.simplefilter("ignore")
+                        m = mk(ml, seed).fit(X, enc(y, ml))
+                        out = [np.asarray(m.predict(Xq), dtype=float)]
+                        if hasattr(m, "predict_target_distribution"):
+                            out.append(np.asarray(m.predict(Xq, return_std=True)[1], dtype=float))
+                except Exception as e:
+                    out = ("exception", err_class(e), repr(e)[:200])
+                if sname == "nan":
+                    ref = out
+                    if isinstance(ref, tuple):
+                        ctx.hist[f"regressor_exception(not C09):{name}:{ref[1]}"] += 1
+                        break
+                    continue
+                ctx.count("regressor:" + name)
+                rc = {"regressor": name, "X": X.tolist(), "y": [None if v != v else v for v in y], "sentinel": sname, "seed": seed}
+                if isinstance(out, tuple):
+                    ctx.violation(name, "encoding_exception", f"missing_label={sname}: {out[2]}", rc, what=f"{name}: fit/predict works with NaN but raises {out[1]} with missing_label={sname}")
+                elif not all(np.allclose(a, b, rtol=1e-9, atol=1e-12, equal_nan=True) for a, b in zip(out, ref)):
+                    ctx.violation(name, "encoding_dependent", f"missing_label={sname}: predictions {out[0].tolist()} vs {ref[0].tolist()} (NaN), {nlab} labeled", rc,
+                                  what=f"{name}: predictions depend on the sentinel that marks missing targets (NaN vs {sname}, {nlab} labeled samples)")
 
 
 def classifiers_and_streams(ctx):
